@@ -2,9 +2,9 @@
 Parse-level places that read the two preferences (C12):
   * `Options.__init__` (options.py:151-155): no_data_loss ⇒ addition=False unless the caller chose one
     (with fix C12-ndl-addition-default: also when `addition` is left at its default),
-  * the tuple prefix parser `_parse_tuple_args` (rule.py:1925-1933): excess items,
+  * the tuple prefix parser `_parse_tuple_args` (rule.py:1938-1947): excess items,
   * unknown keys of a data class / function (`parse_addition`, base.py:411-435),
-  * list / tuple input of a data class (`transform_dataclass`, cls.py:632-642).
+  * list / tuple input of a data class (`transform_dataclass`, cls.py:640-652).
 -/
 import Utv.Model.Conv
 namespace Utv.C12M
@@ -45,12 +45,12 @@ def unknownKey (excluded : Bool) (a : Addition) : KeyFate :=
   | .yes => .kept
   | _ => .dropped
 
-/-- rule.py:1929-1932: the indices handed to `context.handle_error(TupleExceedError)`; with the default
+/-- rule.py:1943-1946: the indices handed to `context.handle_error(TupleExceedError)`; with the default
 (fail-fast) context the first one raises -/
 def tupleExcess (a : Addition) (ndl : Bool) (nargs nvals : Nat) : List Nat :=
   if nvals > nargs && (a == .no || ndl) then List.range' nargs (nvals - nargs) else []
 
-/-- cls.py:632-642: what `transform_dataclass` hands on for a list / tuple input (the data-class instance
+/-- cls.py:640-652: what `transform_dataclass` hands on for a list / tuple input (the data-class instance
 shortcuts are outside `V`) -/
 def dataclassUnwrap (f : Flags) (v : V) : Outcome V :=
   match v with
@@ -62,11 +62,11 @@ def dataclassUnwrap (f : Flags) (v : V) : Outcome V :=
     else .ok v
   | _ => .ok v
 
-/-- `transform_dataclass` followed by the input stage of `init_dataclass` (cls.py:590-621): the mapping that
+/-- `transform_dataclass` followed by the input stage of `init_dataclass` (cls.py:598-629): the mapping that
 reaches `cls.__init__(**data)`.  `fr` are the preferences of the running transformer (they decide the
 unwrapping), `fc` those of the data class's own options (they decide how a non-mapping becomes a dict). -/
 def keywordData (d : V) : Outcome V :=
-  -- cls.py:571-587 `keyword_data` (cast_keyword_str off): the mapping becomes keyword arguments, keys must be str
+  -- cls.py:579-595 `keyword_data` (cast_keyword_str off): the mapping becomes keyword arguments, keys must be str
   match d with
   | .dict _ kvs => if kvs.all (fun kv => isInst kv.1 .str) then .ok d else .perr .typeError
   | _ => .ok d
@@ -77,7 +77,7 @@ def dataclassInput (P : Prims) (E : Env) (fr fc : Flags) (v : V) : Outcome V :=
      else if fc.nec then .perr .typeError
      else toDict P E fc 0 d) >>= keywordData
 
-/-! ### `transform_dataclass` with instances of the class among the input (cls.py:632-647) -/
+/-! ### `transform_dataclass` with instances of the class among the input (cls.py:640-659) -/
 
 /-- what `transform_dataclass` does with its input: return an object that already is an instance, or hand a
 value to `init_dataclass` -/
@@ -86,7 +86,8 @@ inductive DcResult where
   | init (v : V)
   deriving Repr
 
-/-- cls.py:632-647.  `isExact d` = `type(d) == cls`, `isInst d` = `isinstance(d, cls)`, `allowSub` =
+/-- cls.py:640-659 (since ea05768 the unwrapping runs inside a `try` that re-raises as `ParseError`, a TypeError
+subclass: still `perr typeError` here).  `isExact d` = `type(d) == cls`, `isInst d` = `isinstance(d, cls)`, `allowSub` =
 `Options.allow_subclasses` (of the running transformer).  The length check under no_data_loss comes
 *before* the look at the first item: several items never collapse, whatever they are. -/
 def dataclassStep (isExact isInst : V → Bool) (allowSub : Bool) (f : Flags) (v : V) : Outcome DcResult :=
@@ -144,7 +145,7 @@ def unionParse (conv : Flags → Target → V → Outcome V) (f : Flags) (ts : L
   unionStages (ts.any (fun t => typeEq v t)) (fun g => firstOk (fun t => conv g t v) ts) f v
 
 /-! ### members of a Union that are Rules: parametrised generics and constrained types (rule.py:1706-1777,
-`_parse_seq_args` :1986-2012, `_parse_map_args` :2015-2081, `_parse_tuple_args` :1925-1983), default options
+`_parse_seq_args` :1997-2023, `_parse_map_args` :2026-2092, `_parse_tuple_args` :1938-1995), default options
 (fail-fast context: the first `handle_error` raises a ParseError) -/
 
 /-- one constraint of a constrained Rule (`class R(int, Rule): gt = 0`) -/
